@@ -3,6 +3,7 @@ package main
 import (
 	"fmt"
 	"go/ast"
+	"go/token"
 	"go/types"
 	"strings"
 )
@@ -51,6 +52,7 @@ func merge(ms ...map[string]string) map[string]string {
 }
 
 func checkC08(c *Ctx) {
+	c08TrailingCommaFollowsCloser(c)
 	for _, p := range []string{"cue/format", "internal/pretty"} {
 		c.checkCounterBalance("layout.nesting-counter-balanced", p, nil)
 	}
@@ -341,4 +343,113 @@ func c08Cmd(c *Ctx) {
 		})
 	}
 	c.check("cmd.single-writer", "cmd/cue/cmd/fmt.go", 0, len(others) == 0, fmt.Sprintf("only formatFile may write files in the fmt command; also writing: %v", others))
+}
+
+// c08TrailingCommaFollowsCloser: in the v2 printer (internal/pretty) an
+// authored bracket gets a trailing comma exactly when its closer stands on a
+// line of its own. Both decisions are made in computeBracketedPolicy; if they
+// key on different signals, the first pass breaks the closer without adding
+// the comma and the second pass (which now sees a closer with a Newline
+// position) adds it: fmt is not idempotent. The two boolean expressions are
+// evaluated over every assignment of the signals they depend on and must agree
+// whenever a trailing comma is permitted at all.
+func c08TrailingCommaFollowsCloser(c *Ctx) {
+	f := c.fn("internal/pretty", "(*converter).computeBracketedPolicy")
+	cf := newCaseFn(c, f)
+	info := f.Info()
+	// the expression assigned to wantTrailingComma under the "allowed" guard, and the definition of forceClose
+	var commaRHS, closeDef ast.Expr
+	var guard ast.Expr
+	ast.Inspect(f.Body, func(n ast.Node) bool {
+		switch x := n.(type) {
+		case *ast.IfStmt:
+			for _, st := range x.Body.List {
+				if as, ok := st.(*ast.AssignStmt); ok && len(as.Lhs) == 1 && exprString(as.Lhs[0]) == "wantTrailingComma" {
+					commaRHS, guard = as.Rhs[0], x.Cond
+				}
+			}
+		case *ast.AssignStmt:
+			if len(x.Lhs) == 1 && exprString(x.Lhs[0]) == "forceClose" && x.Tok == token.DEFINE {
+				closeDef = x.Rhs[0]
+			}
+		}
+		return true
+	})
+	if commaRHS == nil || closeDef == nil {
+		c.check("layout.trailing-comma-follows-closer", f.Name, f.Decl.Pos(), false, "anchor: wantTrailingComma / forceClose are no longer computed in computeBracketedPolicy")
+		return
+	}
+	// leaf signals of the two expressions
+	leaves := map[string]bool{}
+	var collect func(e ast.Expr)
+	collect = func(e ast.Expr) {
+		e = ast.Unparen(e)
+		switch x := e.(type) {
+		case *ast.UnaryExpr:
+			if x.Op == token.NOT {
+				collect(x.X)
+				return
+			}
+		case *ast.BinaryExpr:
+			if x.Op == token.LAND || x.Op == token.LOR {
+				collect(x.X)
+				collect(x.Y)
+				return
+			}
+			k, _ := cf.atomKey(x)
+			leaves[k] = true
+			return
+		case *ast.Ident:
+			if cf.isBool(x) {
+				if d := singleDef(f, info.Uses[x]); d != nil {
+					collect(d)
+					return
+				}
+			}
+		}
+		leaves[cf.canon(e)] = true
+	}
+	collect(commaRHS)
+	collect(closeDef)
+	var keys []string
+	for k := range leaves {
+		keys = append(keys, k)
+	}
+	sortStrings(keys)
+	if len(keys) > 12 {
+		c.check("layout.trailing-comma-follows-closer", f.Name, f.Decl.Pos(), false, fmt.Sprintf("too many signals to enumerate (%d)", len(keys)))
+		return
+	}
+	authoredKey := ""
+	for _, k := range keys {
+		if strings.Contains(k, "authored(") {
+			authoredKey = k
+		}
+	}
+	bad := ""
+	n := 0
+	for mask := 0; mask < 1<<len(keys); mask++ {
+		truth := map[string]bool{}
+		for i, k := range keys {
+			truth[k] = mask&(1<<i) != 0
+		}
+		if authoredKey != "" && !truth[authoredKey] {
+			continue // synthesised brackets: the comma is decided at run time (docSwitchMode)
+		}
+		a, b := cf.eval(commaRHS, truth), cf.eval(closeDef, truth)
+		n++
+		if a == triUnknown || b == triUnknown || a != b {
+			var on []string
+			for _, k := range keys {
+				if truth[k] {
+					on = append(on, k)
+				}
+			}
+			bad = fmt.Sprintf("with {%s} true and the rest false: trailing comma=%v, closer on its own line=%v", strings.Join(on, ", "), a == triTrue, b == triTrue)
+			break
+		}
+	}
+	_ = guard
+	c.check("layout.trailing-comma-follows-closer", f.Name, f.Decl.Pos(), bad == "" && n > 0,
+		fmt.Sprintf("for an authored bracket the trailing-comma decision and the closer-on-its-own-line decision must be the same function of the layout signals (%d assignments of %d signals compared), or the second fmt pass adds the comma the first one withheld: %s", n, len(keys), bad))
 }
